@@ -10,7 +10,7 @@ def main():
     a = ap.parse_args()
     if a.tier not in ('quick', 'thorough'):
         a.tier = 'quick'
-    if a.prop in ('C01', 'C02', 'C03', 'C04', 'C05', 'C06', 'C07'):
+    if a.prop in ('C01', 'C02', 'C03', 'C04', 'C05', 'C06', 'C07', 'C15'):
         from . import checks_a
         if a.replay:
             from . import replay
